@@ -422,6 +422,14 @@ def gen_cases(ctx, n):
     for g in CG.corpus() + cost_corpus() + G.classic_corpus():
         cases.append(("corpus", g, {x: 1 for x in g.tokens}))
         cases.append(("corpus", g, CG.costs_for(rng, g)))
+    # true costs beyond u16: the documented answer is the overflow panic (C17_*_panic_iff), never a silently wrong number
+    t_, r_ = CG.t, CG.r
+    dbl = [("S", [[r_("A9")], [t_("t")]]), ("T", [[r_("A9")]]), ("A0", [[t_("t")]])] + \
+          [("A%d" % i, [[r_("A%d" % (i - 1)), r_("A%d" % (i - 1))]]) for i in range(1, 10)]
+    long1 = [("S", [[t_("t")] * 258, [t_("u")]]), ("T", [[r_("S"), r_("S")]])]
+    for g, costs in ((G.Gram(["t"], dbl), {"t": 255}), (G.Gram(["t"], dbl), {"t": 128}), (G.Gram(["t"], dbl), {"t": 1}),
+                     (G.Gram(["t", "u"], long1), {"t": 255, "u": 1}), (G.Gram(["t", "u"], long1), {"t": 254, "u": 255})):
+        cases.append(("corpus", g, costs))
     fams = [("random", lambda: G.random_grammar(rng)),
             ("reduced", lambda: G.reduced_random_grammar(rng)),
             ("nullable", lambda: G.nullable_heavy(rng)),
